@@ -69,7 +69,8 @@ def plan(S, prop, mode, tier, avoid):
                 op["edge"] = 0.0            # (edge deviates are forced one by one in Python: not for a million draws)
                 op["rad"] = max(op["rad"], 1e-3)
         elif k == "box":
-            bk = wpick(r, [("any", 5), ("full", 1), ("zero_ra", 1), ("zero_dec", 1), ("polar", 1.5), ("default", 1)])
+            bk = wpick(r, [("any", 5), ("full", 1), ("zero_ra", 1), ("zero_dec", 1), ("polar", 1.5), ("default", 1),
+                           ("round", 2)])
             a0, a1 = sorted([round(r.uniform(0, 360), 4), round(r.uniform(0, 360), 4)])
             d0, d1 = sorted([round(r.uniform(-90, 90), 4), round(r.uniform(-90, 90), 4)])
             if bk == "full":
@@ -78,6 +79,13 @@ def plan(S, prop, mode, tier, avoid):
                 a1 = a0
             elif bk == "zero_dec":
                 d1 = d0
+            elif bk == "round":
+                # the boxes people type: whole numbers (ints as often as floats), the equator or ra=0 as an edge,
+                # a hemisphere, an octant, and the degenerate boxes on those lines
+                a0, a1 = pick(r, [(0, 90), (0, 180), (0.0, 360.0), (0, 0), (0.0, 0.0), (180, 360), (90, 90), (0, 1), (359, 360),
+                                  (a0, a1)])
+                d0, d1 = pick(r, [(0, 30), (0, 90), (-40, 0), (-90, 0), (0, 0), (0.0, 0.0), (-30, 30), (0.0, 45.0), (-1, 0),
+                                  (-90.0, 0.0), (0, 1), (d0, d1)])
             elif bk == "polar":
                 d0, d1 = pick(r, [(89.0, 90.0), (-90.0, -89.9), (89.9999, 90.0), (-90.0, 90.0), (-90.0, -90.0), (90.0, 90.0)])
             op.update({"n": wpick(r, [(1, 1), (r.randrange(2, 40), 4), (r.randrange(40, 500), 1)]),
@@ -130,6 +138,13 @@ def plan(S, prop, mode, tier, avoid):
                 # candidate values likely: ~1e5 out of 5e6)
                 big = pick(r, [2000000, 5000000, 8000000])
                 op.update({"imax": big, "nrand": big // pick(r, [50, 60, 100]), "unique": True, "how": "real"})
+            elif chance(r, 0.06):
+                # index ranges around and beyond what 4-byte integers hold (a selection from a very large catalogue, or
+                # from a range that is not an array at all); a new-style generator draws these without a permutation
+                big = pick(r, [2 ** 31 - 1, 2 ** 31, 2 ** 31 + 1, 3 * 10 ** 9, 2 ** 32 - 1, 2 ** 32, 2 ** 32 + 1, 2 ** 40,
+                               2 ** 62])
+                op.update({"imax": big, "nrand": wpick(r, [(1, 1), (r.randrange(2, 60), 4), (r.randrange(60, 3000), 1)]),
+                           "how": pick(r, ["seed", "real"]), "flavour": "new"})
         ops.append(op)
     return {"cfg": {}, "ops": ops}
 
@@ -333,6 +348,8 @@ def do_box(run, op):
     run.trans.add(st + "|zw=%s|polar=%s" % (a0 == a1 or d0 == d1, abs(d0) == 90 or abs(d1) == 90))
     if a0 == a1 or d0 == d1:
         run.fault("zero_width_box")
+    if (d0 == 0 or d1 == 0 or (op["ra_range"] is not None and a1 == 0)) and op["dec_range"] is not None:
+        run.fault("box_edge_exactly_zero")
     try:
         out = coords.randsphere(n, rng=rng, **kw)
     except Exception as e:
@@ -387,6 +404,8 @@ def do_box(run, op):
             bad &= ~((np.abs(pdec) > 89.9999))      # longitude is undefined at the pole
             if a0 == 0.0:
                 bad &= ~(pra > 360 - ra_tol)
+            if a1 == 360.0:
+                bad &= ~(pra < ra_tol)              # 360 and 0 are one meridian once the point is a vector
         if np.any(bad):
             i = int(np.nonzero(bad)[0][0])
             run.fail("rng.box.inside", dict(feats, coord="ra"), "randsphere(%d, %r): point %d has ra %r outside [%r,%r]" % (n, kw, i, pra[i], a0, a1))
@@ -772,6 +791,8 @@ def do_indices(run, op):
     imax, nr, unique = op["imax"], op["nrand"], op["unique"]
     feats = {"call": "random_indices", "unique": unique, "how": op["how"]}
     run.states.add("indices|%s|unique=%s" % (op["how"], unique))
+    if imax >= 2 ** 31 - 1:
+        run.fault("index_range_beyond_4_byte_integers")
     rng = None
     try:
         if op["how"] == "rng":
